@@ -32,6 +32,9 @@ CONSTANTS Resume,             \* abbreviated handshake: server knows the offered
                               \* re-sending (pinned tree: FALSE - a resumed server falls back to Waiting(4b) and
                               \* retransmits on the timer although it completed; the "fix:" commit makes it TRUE)
           EmitCap,            \* emission counter saturates here (0 in liveness configurations)
+          Split,              \* the server's Flight 4 travels in TWO datagrams (F4x: ServerHello + Certificate, F4y: key exchange
+                              \* + ServerHelloDone; MTU 900 in the harness): a datagram can then carry NEW handshake data without
+                              \* completing the flight - the case in which the retransmit interval must still be reset
           Gen                 \* print one environment script per explored edge
 
 E == {"c", "s"}
@@ -39,7 +42,11 @@ Peer(e) == IF e = "c" THEN "s" ELSE "c"
 CFlights == {"F1", "F3", "F5", "F5b"}
 SFlights == {"F2", "F4", "F4b", "F6"}
 Flights  == CFlights \cup SFlights
-Sender(f) == IF f \in CFlights THEN "c" ELSE "s"
+\* datagram kinds: a flight is one datagram, except Flight 4 when Split
+DG(f) == IF Split /\ f = "F4" THEN {"F4x", "F4y"} ELSE {f}
+Kinds == UNION {DG(f) : f \in Flights}
+Sender(f) == IF f \in CFlights THEN "c" ELSE "s"     \* (F4x, F4y fall into the ELSE branch: server)
+Has4(g) == DG("F4") \subseteq g
 Cap == 2                      \* identical copies of one flight in flight at once
 
 VARIABLES st,      \* FSM state at quiescence: "Waiting" | "Finished" | "Errored"
@@ -71,10 +78,10 @@ Retransmittable(f) == f # "F2"          \* HelloVerifyRequest is never retransmi
 ParseNext(e, cf, g) ==
   IF e = "c" THEN
     CASE cf = "F1" -> IF "F4b" \in g THEN "F5b"
-                      ELSE IF "F4" \in g THEN "F5"
+                      ELSE IF Has4(g) THEN "F5"
                       ELSE IF "F2" \in g THEN "F3" ELSE "none"
       [] cf = "F3" -> IF "F4b" \in g THEN "F5b"
-                      ELSE IF "F4" \in g THEN "F5" ELSE "none"
+                      ELSE IF Has4(g) THEN "F5" ELSE "none"
       [] cf = "F5" -> IF "F6" \in g THEN "F5" ELSE "none"
       [] OTHER     -> "none"
   ELSE
@@ -88,7 +95,9 @@ ParseNext(e, cf, g) ==
       [] cf = "F4b" -> IF "F5b" \in g THEN "F4b" ELSE "none"
       [] OTHER     -> "none"
 
-Put(n, f) == [n EXCEPT ![f].n = IF n[f].n + n[f].d < Cap THEN @ + 1 ELSE @]
+PutK(n, f) == [n EXCEPT ![f].n = IF n[f].n + n[f].d < Cap THEN @ + 1 ELSE @]
+\* a flight is emitted: every datagram of it enters the network
+Put(n, f) == IF Split /\ f = "F4" THEN PutK(PutK(n, "F4x"), "F4y") ELSE PutK(n, f)
 \* one copy of kind k ("n" | "d") of flight f leaves the network towards its destination
 Take(n, f, k) == IF k = "n" THEN [n EXCEPT ![f].n = @ - 1]
                  ELSE [n EXCEPT ![f].d = @ - 1, ![f].s = @ + 1]
@@ -126,7 +135,9 @@ Deliver(f, k) ==
                /\ NoEmit
                /\ UNCHANGED <<st, fl, retx, bk, est>>
      ELSE \* fsm12.wait, receive branch
-          LET isRetx == f \in got[e]
+          \* retransmission is recognised by message_seq below the reassembly cursor: the second half of a split flight
+          \* whose first half is still missing has not been consumed, a repeated copy of it still counts as new data
+          LET isRetx == f \in got[e] /\ (f = "F4y" => "F4x" \in got[e])
               nf     == ParseNext(e, fl[e], got'[e])
               bk1    == IF isRetx THEN bk[e] ELSE 0 IN
           IF nf = "none"
@@ -195,7 +206,7 @@ Init ==
   /\ bk = [e \in E |-> 0]
   /\ got = [e \in E |-> {}]
   /\ est = [e \in E |-> FALSE]
-  /\ net = [f \in Flights |-> [n |-> IF f = "F1" THEN 1 ELSE 0, d |-> 0, s |-> 0]]   \* the first ClientHello is out
+  /\ net = [f \in Kinds |-> [n |-> IF f = "F1" THEN 1 ELSE 0, d |-> 0, s |-> 0]]   \* the first ClientHello is out
   /\ drops = 0 /\ dups = 0 /\ touts = 0
   /\ emitted = [e \in E |-> IF e = "c" THEN 1 ELSE 0]
   /\ inputs = [e \in E |-> 0]
@@ -208,16 +219,20 @@ PostP == [cst |-> st'["c"], sst |-> st'["s"], cfl |-> fl'["c"], sfl |-> fl'["s"]
           emit |-> IF lastEmit' = <<>> THEN "" ELSE lastEmit'[2]]
 Log(a, x) == hist' = Append(hist, [act |-> a, arg |-> x, post |-> PostP])
 
-Next == \/ \E f \in Flights : \/ \E k \in {"n", "d"} : Deliver(f, k) /\ Log("Deliver", f \o "/" \o k)
+Next == \/ \E f \in Kinds   : \/ \E k \in {"n", "d"} : Deliver(f, k) /\ Log("Deliver", f \o "/" \o k)
                               \/ DeliverStale(f) /\ Log("Deliver", f \o "/s")
                               \/ \E k \in {"n", "d", "s"} : Drop(f, k) /\ Log("Drop", f \o "/" \o k)
                               \/ Dup(f) /\ Log("Dup", f)
         \/ \E e \in E : Timeout(e) /\ Log("Timeout", e)
 
 Fair == /\ \A e \in E : WF_vars(Timeout(e) /\ Log("Timeout", e))
-        /\ \A e \in E : SF_vars(\E f \in Flights, k \in {"n", "d"} : Sender(f) = Peer(e) /\ Deliver(f, k) /\ Log("Deliver", f \o "/" \o k))
+        /\ \A e \in E : SF_vars(\E f \in Kinds, k \in {"n", "d"} : Sender(f) = Peer(e) /\ Deliver(f, k) /\ Log("Deliver", f \o "/" \o k))
 
-Spec == Init /\ [][Next]_vars /\ Fair
+\* with a flight in two datagrams a fair network delivers each half eventually (delivering one half for ever would
+\* satisfy the per-endpoint condition above)
+FairSplit == Split => \A f \in DG("F4") : SF_vars(\E k \in {"n", "d"} : Deliver(f, k) /\ Log("Deliver", f \o "/" \o k))
+
+Spec == Init /\ [][Next]_vars /\ Fair /\ FairSplit
 
 -----------------------------------------------------------------------------
 (* C02 *)
@@ -250,7 +265,7 @@ FinalFlightOnlyOnPeerRetx ==
 EmissionBound == \A e \in E : emitted[e] < EmitCap => emitted[e] <= 1 + inputs[e]
 
 TypeOK == /\ \A e \in E : st[e] \in {"Waiting", "Finished"} /\ bk[e] \in 0..BackoffCap
-          /\ \A f \in Flights : net[f].n + net[f].d <= Cap
+          /\ \A f \in Kinds : net[f].n + net[f].d <= Cap
 
 \* script generation
 EmitEdge == Gen => PrintT(ToJson([steps |-> hist']))
